@@ -58,44 +58,36 @@ impl CornerRadii {
 
     /// Confine corner radii that are too large to a given bounding rectangle
     pub(in crate::primitives) fn confine(self, bounding_box: Size) -> Self {
-        let mut overlap = 0;
-        let mut size = 0;
-        let mut corner_size = 0;
+        let sides = [
+            (bounding_box.width, self.top_left.width + self.top_right.width),
+            (
+                bounding_box.height,
+                self.top_right.height + self.bottom_right.height,
+            ),
+            (
+                bounding_box.width,
+                self.bottom_left.width + self.bottom_right.width,
+            ),
+            (
+                bounding_box.height,
+                self.top_left.height + self.bottom_left.height,
+            ),
+        ];
 
-        let top_radii = self.top_left.width + self.top_right.width;
-        let right_radii = self.top_right.height + self.bottom_right.height;
-        let bottom_radii = self.bottom_left.width + self.bottom_right.width;
-        let left_radii = self.top_left.height + self.bottom_left.height;
-
-        let o = top_radii.saturating_sub(bounding_box.width);
-        if o > overlap {
-            size = bounding_box.width;
-            corner_size = top_radii;
-            overlap = o;
+        // Find the side whose radii must be scaled down the most, i.e. the overlapping side with
+        // the smallest ratio between the side length and the sum of its two radii.
+        let mut scale: Option<(u32, u32)> = None;
+        for (size, corner_size) in sides {
+            if corner_size > size
+                && scale.map_or(true, |(s, c)| {
+                    u64::from(size) * u64::from(c) < u64::from(s) * u64::from(corner_size)
+                })
+            {
+                scale = Some((size, corner_size));
+            }
         }
 
-        let o = right_radii.saturating_sub(bounding_box.height);
-        if o > overlap {
-            size = bounding_box.height;
-            corner_size = right_radii;
-            overlap = o;
-        }
-
-        let o = bottom_radii.saturating_sub(bounding_box.width);
-        if o > overlap {
-            size = bounding_box.width;
-            corner_size = bottom_radii;
-            overlap = o;
-        }
-
-        let o = left_radii.saturating_sub(bounding_box.height);
-        if o > overlap {
-            size = bounding_box.height;
-            corner_size = left_radii;
-            overlap = o;
-        }
-
-        if overlap > 0 && corner_size > 0 {
+        if let Some((size, corner_size)) = scale {
             Self {
                 top_left: (self.top_left * size) / corner_size,
                 top_right: (self.top_right * size) / corner_size,
